@@ -257,13 +257,13 @@ def plans(tier, seed):
         b = [(lab, s) for _, lab, s in all_specs(4, 4, 0, pal) if s.n == 4]
         h = [(f"harness:{k}", s) for k, s in harness_specs(pal).items()]
         jobs = [({"pset": 0, "d": 1, "optsets": option_sets("pairs"), "cs_sym": ["SX", "MX"]}, a + b),
-                ({"pset": 1, "d": 2, "optsets": option_sets("all"), "cs_sym": ["SX", "MX"], "dense": True}, h),
+                ({"pset": 1, "d": 1, "optsets": option_sets("all"), "cs_sym": ["SX", "MX"], "dense": True}, h),
                 ({"pset": 2, "d": 0, "optsets": option_sets("all"), "cs_sym": ["SX"]},
                  [(lab, s) for _, lab, s in all_specs(3, 3, 0, pal)]),
                 ({"pset": 0, "d": 0, "optsets": [], "cs_sym": [], "hist": True, "hist_sym": ["SX", "MX"]},
                  h + [(lab, s) for _, lab, s in all_specs(3, 2, 0, pal)])]
         bounds = {"shapes": "(3,4) c<=1 + 4-node (4,4): <=2 options + all six; harness list and (3,3) base configs: all 63 "
-                            "non-empty option sets (harness with pair excursions)", "palette": pal}
+                            "non-empty option sets (harness with single excursions)", "palette": pal}
     return jobs, bounds
 
 
